@@ -50,6 +50,10 @@ pub open spec fn ops_budget(bs: Seq<PreflateTokenBlock>) -> int
     decreases bs.len()
 { if bs.len() == 0 { 0 } else { ops_budget(bs.drop_last()) + 4 * bs.last().tokens@.len() + 1010 } }
 
+pub proof fn lemma_budget_blocks(bs: Seq<PreflateTokenBlock>)
+    ensures ops_budget(bs) >= 1010 * bs.len(),
+    decreases bs.len()
+{ if bs.len() > 0 { lemma_budget_blocks(bs.drop_last()); } }
 pub proof fn lemma_blks_prefix(text: Seq<u8>, pos: int, bs: Seq<PreflateTokenBlock>, k: int)
     requires blks_in_text(text, pos, bs, true), 0 <= k < bs.len(),
     ensures blks_in_text(text, pos, bs.subrange(0, k), false), blk_in_text(text, blks_end(pos, bs.subrange(0, k)), bs[k], k == bs.len() - 1),
